@@ -17,7 +17,7 @@ THEOREMS = ["build_ok_wellformed", "build_err_is_argerror", "build_ok_fields", "
 CLOCKS = [dt.datetime(2020, 7, 13, 5, 46, 45, 123456), dt.datetime(2020, 2, 29, 23, 59, 59, 999999), dt.datetime(2019, 12, 31, 23, 59, 59), dt.datetime(2023, 3, 1, 0, 0, 0),
           dt.datetime(1, 1, 1, 0, 0, 0), dt.datetime(9998, 6, 1, 23, 59, 59), dt.datetime(2024, 2, 28, 12, 0, 1), dt.datetime(2100, 2, 28, 1, 2, 3), dt.datetime(999, 5, 5, 5, 5, 5)]
 
-BAD = [None, True, 0, -1, 1.0, 1.5, float("inf"), float("nan"), "", "x", "1", [], {}, ["ab" * 32], {"root": 1}, b"x", (1, 2), proto.Opaque(0), 10**400, "2020-13-01T00:00:00Z", "2020-01-01"]
+BAD = [dt.timedelta(days=365), dt.timedelta(0), dt.timedelta.max, dt.timedelta(days=365 * 8000), dt.timedelta(days=-1), dt.timedelta(microseconds=1), None, True, 0, -1, 1.0, 1.5, float("inf"), float("nan"), "", "x", "1", [], {}, ["ab" * 32], {"root": 1}, b"x", (1, 2), proto.Opaque(0), 10**400, "2020-13-01T00:00:00Z", "2020-01-01"]
 
 
 def parse_utc(s):
@@ -35,7 +35,7 @@ def run(ck: Check) -> None:
         if i % 2 == 0:
             p = {"metadata_type": rng.choice(["root", "key_mgr", "key_mgr", "channeler", "", "é", "key_mgr.json", "root.json", "x.JSON", " root", "Root", "root\n", "pkg_mgr/", "../root"])}
             if rng.random() < 0.8:
-                p["delegations"] = {n: gen.delegation(rng.sample(ks, len(ks)) or [gen.key(9)], rng.choice([1, 2, True, 2**70])) for n in rng.sample(["root", "key_mgr", "x", "é"], rng.randint(0, 3))}
+                p["delegations"] = {n: gen.delegation(rng.sample(ks, len(ks)) or [gen.key(9)], rng.choice([1, 2, True, 2**70])) for n in rng.sample(["root", "key_mgr", "x", "é", "conda-forge/pkg_mgr", "..", "", "a\\b", "pkg_{subdir}", "nul\x00"], rng.randint(0, 3))}
             if rng.random() < 0.7:
                 p["version"] = rng.choice([1, 2, 17, 2**70, True])
             if rng.random() < 0.5:
@@ -81,6 +81,7 @@ def run(ck: Check) -> None:
         cases.append(Case("build", [which, a, b, p], tag=tag, group=i))
     res = ck.run_cases(cases, "corr:metadata-builders/value")
     roots = []
+    to_checker = []
     for r in res:
         which, a, b, p = r.case.args
         ck.oracle_checks += 1
@@ -100,6 +101,8 @@ def run(ck: Check) -> None:
         problems = []
         if typ in ("root", "key_mgr") and not schema.o_delegating_md(wrapped):
             problems.append("result does not pass the delegating-metadata schema")
+        if typ in ("root", "key_mgr"):
+            to_checker.append((wrapped, which, p))
         if md.get("metadata_spec_version") != "0.6.0":
             problems.append("wrong specification version")
         if not proto.deep_equal(md.get("type"), typ):
@@ -135,6 +138,12 @@ def run(ck: Check) -> None:
             ck.violation("metadata builder: " + pr, {"which": which, "params": {k: repr(v)[:120] for k, v in p.items()}, "result": proto.enc(md)[:800]}, f"builder:{pr[:40]}:{which}")
         if which == "root" and not problems and isinstance(ver, int) and not isinstance(ver, bool) and ver < 2**60 and p["root_pubkeys"]:
             roots.append((p, md))
+    # what the builders return, once wrapped, passes the library's own checker (not only the schema as this harness reads it)
+    for (wrapped, which, p), r in zip(to_checker, ck.run_cases([Case("check", ["delegating_metadata", w]) for w, _, _ in to_checker], "corr:checker-on-built-metadata/outcome-class")):
+        ck.oracle_checks += 1
+        if r.impl != "OK":
+            ck.violation("metadata builder: the result, once wrapped, is rejected by the delegating-metadata checker",
+                         {"which": which, "params": {k: repr(v)[:120] for k, v in p.items()}, "result": proto.enc(wrapped)[:800], "checker": r.impl}, f"builder:checker-rejects-result:{which}")
     # histories: what a call returns depends on its arguments only — editing an earlier result (or the arguments afterwards) does not leak into later results
     from .. import impl
     import copy as _copy
